@@ -15,6 +15,7 @@ import (
 	"github.com/gofiber/fiber/v3"
 	"github.com/gofiber/fiber/v3/middleware/idempotency"
 	"github.com/gofiber/fiber/v3/verifrt"
+	"github.com/gofiber/utils/v2"
 	"github.com/valyala/fasthttp"
 
 	"verifmc/core"
@@ -50,6 +51,11 @@ type params struct {
 	// SharedCtx: the warm requests and the first concurrent request are served by ONE fasthttp.RequestCtx, reset
 	// between requests as fasthttp does (anything the middleware keeps that aliases request buffers is overwritten)
 	SharedCtx bool
+	// ExpireWarm: after the warm phase the clock moves past the record's lifetime AND past the storage's janitor
+	// interval: the recorded keys are expired (a request carrying one legitimately runs the handler again) and the
+	// built-in storage's janitor thread (a daemon thread of the execution) is due: it sweeps WHILE the concurrent
+	// requests look up, lock and store. The concurrent phase is then judged like a phase without warm-up.
+	ExpireWarm bool
 }
 
 // injected storage: yields at every call, may fail
@@ -91,9 +97,13 @@ func (s *injStorage) Set(key string, val []byte, _ time.Duration) error {
 	s.data[key] = append([]byte(nil), val...)
 	return nil
 }
-func (s *injStorage) Delete(key string) error { verifrt.YieldOn("storage.del", s); delete(s.data, key); return nil }
-func (s *injStorage) Reset() error            { s.data = map[string][]byte{}; return nil }
-func (s *injStorage) Close() error            { return nil }
+func (s *injStorage) Delete(key string) error {
+	verifrt.YieldOn("storage.del", s)
+	delete(s.data, key)
+	return nil
+}
+func (s *injStorage) Reset() error { s.data = map[string][]byte{}; return nil }
+func (s *injStorage) Close() error { return nil }
 
 type failingLocker struct {
 	inner idempotency.Locker
@@ -128,6 +138,9 @@ type hstate struct {
 	ranFor    map[string]int
 }
 
+// clock0: the coarse clock (utils.Timestamp, read by the built-in storage) at the start of every execution
+const clock0 = 1_900_000_000
+
 func runScenario(p params) func(e *schedx.Exec) *schedx.Outcome {
 	return func(e *schedx.Exec) *schedx.Outcome {
 		var faultLog []string
@@ -143,6 +156,7 @@ func runScenario(p params) func(e *schedx.Exec) *schedx.Outcome {
 		res := verifrt.Run(e.Chooser(), verifrt.Options{MaxSteps: 5000, StateKey: func() string {
 			return fmt.Sprint(hs.started, hs.completed, hs.ranFor, len(faultLog))
 		}}, func() {
+			utils.VerifSetTimestamp(clock0)
 			cfg := idempotency.Config{KeepResponseHeaders: p.Keep}
 			if p.Storage == "injected" {
 				cfg.Storage = &injStorage{e: e, faults: p.Faults, data: map[string][]byte{}, log: &faultLog}
@@ -223,6 +237,12 @@ func runScenario(p params) func(e *schedx.Exec) *schedx.Outcome {
 				warmObs[rs.Key] = o
 				obs[0] = respObs{}
 			}
+			if p.ExpireWarm {
+				verifrt.Advance(31 * time.Minute) // default lifetime 30 min, janitor interval 10 s
+				utils.VerifSetTimestamp(clock0 + 31*60)
+				hs.started, hs.completed, hs.ranFor = map[string]int{}, map[string]int{}, map[string]int{}
+				warmObs = map[string]respObs{}
+			}
 			for i, rs := range p.Reqs {
 				i, rs := i, rs
 				verifrt.GoNamed(rs.ID, false, func() { do(i, rs) })
@@ -258,7 +278,8 @@ func runScenario(p params) func(e *schedx.Exec) *schedx.Outcome {
 				setFault = true
 			}
 		}
-		if len(p.Warm) > 0 && len(res.Panics) == 0 && !res.Deadlock && !res.Horizon {
+		warmPhase := len(p.Warm) > 0 && !p.ExpireWarm
+		if warmPhase && len(res.Panics) == 0 && !res.Deadlock && !res.Horizon {
 			// replay oracle: a request whose key was recorded in the warm phase gets exactly the recorded answer and
 			// does not run the handler; a request with a fresh key runs it once
 			for k, w := range warmObs {
@@ -302,7 +323,7 @@ func runScenario(p params) func(e *schedx.Exec) *schedx.Outcome {
 				}
 			}
 		}
-		if len(p.Warm) == 0 && len(res.Panics) == 0 && !res.Deadlock && !res.Horizon {
+		if !warmPhase && len(res.Panics) == 0 && !res.Deadlock && !res.Horizon {
 			if !setFault {
 				for k, c := range hs.completed {
 					if c > 1 {
@@ -498,6 +519,13 @@ func main() {
 		mk("replay-a-first-b", params{Warm: warmAB[:1], Outer: true, Reqs: []reqSpec{rp("repA", keyA), rp("firstB", keyB), {ID: "nokey", Method: "POST"}}, Storage: "injected", Locker: "default"},
 			xplore.Bounds{0, 2, 0, 0}, xplore.Bounds{0, 3, 0, 0}, false),
 	)
+	// the recorded keys have expired and the built-in storage's janitor sweeps while duplicates of one of them arrive
+	scenarios = append(scenarios,
+		mk("expired-janitor-dup2-memory", params{Warm: warmAB, ExpireWarm: true, Reqs: dup(2), Storage: "memory", Locker: "default"},
+			xplore.Bounds{0, 2, 0, 0}, xplore.Bounds{0, 3, 0, 0}, false),
+		mk("expired-janitor-dup2-late-memory", params{Warm: warmAB[:1], ExpireWarm: true, Reqs: dup(2), Storage: "memory", Locker: "default", Sequential2: true},
+			xplore.Bounds{0, 2, 0, 0}, xplore.Bounds{0, 3, 0, 0}, false),
+	)
 	// request / handler / configuration family (family.go)
 	scenarios = append(scenarios, famScenarios(r)...)
 	schedx.RunAll(r, scenarios, 16)
@@ -509,7 +537,7 @@ func main() {
 		Exhaustive: true,
 		Coverage: schedx.Coverage(r, scenarios, map[string]any{
 			"family_rule": "fam-seq / fam-conc (family.go): members = ball of the stated radius around the base over the dimensions cfg x life x adv x method x shape x behave x store x variant x up x ctx (values in the scenario params); fam-seq serves nine requests one after the other (first, duplicate varying path/body/method, safe method with the key, key in the other header name, other key, invalid key, clock advance, duplicate with an optional corrupted/failing lookup, duplicate, duplicate of the other key), fam-conc serves the first two in flight together under all schedules; a sequential reference model (recorded answer per key with its time, lifetime in whole storage seconds) judges every request, three-valued where nothing is specified (counters unspecified_*); violations are minimised by resetting dimensions to base",
-			"rule": "every scenario is a closed driver (fresh app per execution, 2-4 request threads); ALL interleavings at the scheduling points (MemoryLock and countedLock mutex operations, storage mutex operations, injected storage Get/Set/Delete, handler entry/work seams, thread spawn/join) are enumerated depth-first by prefix replay under the stated preemption / fault bounds (-1 = unbounded with happens-before state pruning); the oracle runs on every complete execution",
+			"rule":        "every scenario is a closed driver (fresh app per execution, 2-4 request threads); ALL interleavings at the scheduling points (MemoryLock and countedLock mutex operations, storage mutex operations, injected storage Get/Set/Delete, handler entry/work seams, thread spawn/join) are enumerated depth-first by prefix replay under the stated preemption / fault bounds (-1 = unbounded with happens-before state pruning); the oracle runs on every complete execution",
 		}),
 		Assumptions: []string{
 			"sequential consistency; scheduling only at synchronisation operations and harness seams (data-race freedom between them is assumed, see DESIGN 1.3)",
